@@ -140,6 +140,30 @@ func checkC04(rc *Run) error {
 				case !got[1].Equal(a) || !got[2].Equal(b) || !o.After.Equal(fromDocJSON(a, b)):
 					rc.Report("merge-operand-changed:"+site, fmt.Sprintf("%s on %s: operands read back as %s and %s", expr, doc, got[1].JSON(), got[2].JSON()), M{"machine": "Merge", "concrete": concrete})
 				}
+				// forms of the same row that the documentation does not distinguish (every 8th row): the operands at the ROOT of a
+				// document and in a variable (no parent node), and the `c` flag (clobber custom tags: no effect on untagged data)
+				// in either position of the flag string
+				if n%8 == 0 && a.K == "map" {
+					variants := []struct{ expr, doc string }{
+						{fmt.Sprintf("(. *%s %s) as $m | [$m, ., %s]", r.Flags, litText(b), litText(b)), a.JSON()},
+						{fmt.Sprintf(". as $x | ($x *%s %s) as $m | [$m, $x, %s]", r.Flags, litText(b), litText(b)), a.JSON()},
+						{fmt.Sprintf("[.x *%sc .y, .x, .y]", r.Flags), doc},
+						{fmt.Sprintf("[.x *c%s .y, .x, .y]", r.Flags), doc},
+					}
+					for vi, v := range variants {
+						ov := evalWithTimeout(v.expr, v.doc, false)
+						if ov.St != "ok" || len(ov.Res) != 1 || len(ov.Res[0].E) != 3 {
+							rc.Report(fmt.Sprintf("merge-variant-status:%d:%s", vi, site), fmt.Sprintf("%s on %s: expected %s, yq: %s %s", v.expr, v.doc, r.R.JSON(), ov.St, ov.ErrText), M{"machine": "Merge", "concrete": M{"expr": v.expr, "input_json": v.doc}})
+							continue
+						}
+						gv := ov.Res[0].E
+						if !gv[0].Equal(r.R) {
+							rc.Report(fmt.Sprintf("merge-variant-result:%d:%s", vi, site), fmt.Sprintf("%s on %s: specification %s, yq %s", v.expr, v.doc, r.R.JSON(), gv[0].JSON()), M{"machine": "Merge", "concrete": M{"expr": v.expr, "input_json": v.doc}})
+						} else if !gv[1].Equal(a) || !gv[2].Equal(b) {
+							rc.Report(fmt.Sprintf("merge-variant-operand-changed:%d:%s", vi, site), fmt.Sprintf("%s on %s: operands read back as %s and %s", v.expr, v.doc, gv[1].JSON(), gv[2].JSON()), M{"machine": "Merge", "concrete": M{"expr": v.expr, "input_json": v.doc}})
+						}
+					}
+				}
 				// no aliasing: editing the result must not show through the operands
 				if r.R.K == "map" {
 					expr2 := fmt.Sprintf("[(.x *%s .y | (.zz = 9) | (.. |= .)), .x, .y]", r.Flags)
